@@ -39,6 +39,7 @@ type scenario struct {
 	Workers [][]bindOp `json:"workers"`
 	Sweep   bool       `json:"sweep"` // exhaust the ephemeral range first
 	SweepIP int        `json:"sweepIP,omitempty"` // 0: on the wildcard address; k>0: on the host's k-th address (mod), then other addresses must still have free ports
+	ProbeMode int      `json:"probeMode,omitempty"` // traffic: 0 statics then the next automatic candidates, 1 candidates then statics, 2 statics only, 3 the next candidate only
 	Traffic   bool     `json:"traffic,omitempty"` // assign: the router runs and routes datagrams to still free addresses while NICs join
 	EarlyBind bool     `json:"earlyBind,omitempty"` // a wildcard port-0 bind (closed again) before the host is attached to the router
 	NilIPPort bool     `json:"nilIPPort,omitempty"` // binds to the wildcard address are written as &net.UDPAddr{Port: p} (nil IP)
@@ -50,6 +51,7 @@ func gen(r *harn.Rng, tier string) interface{} {
 	if r.Bool(0.4) {
 		sc.Kind = "assign"
 		sc.Traffic = r.Bool(0.4)
+		sc.ProbeMode = r.Intn(4)
 		sc.CIDR = []string{"10.0.0.0/24", "10.0.0.0/24", "192.168.7.0/24", "10.1.2.0/28", "10.9.0.0/16"}[r.Intn(5)]
 		n := r.Range(1, 14)
 		if r.Bool(0.05) {
@@ -230,9 +232,20 @@ func runAssign(env *simrt.Env, sc *scenario) {
 			static = append(static, expand(sc.CIDR, s))
 		}
 		if prober != nil {
-			targets := append([]string(nil), static...)
+			// which address the router looked up last, before the NIC joins, varies
+			var cands, targets []string
 			for k := 1; k <= 3; k++ {
-				targets = append(targets, expand(sc.CIDR, fmt.Sprint((auto+k)%254+1)))
+				cands = append(cands, expand(sc.CIDR, fmt.Sprint((auto+k)%254+1)))
+			}
+			switch sc.ProbeMode {
+			case 1:
+				targets = append(cands, static...)
+			case 2:
+				targets = static
+			case 3:
+				targets = cands[:1]
+			default:
+				targets = append(append([]string(nil), static...), cands...)
 			}
 			for _, tgt := range targets {
 				if ip := net.ParseIP(tgt); ip != nil && ipnet.Contains(ip) {
